@@ -6,28 +6,82 @@ every step.  Step C: the implementation vs the extracted Coq specification
 (Spec/AttrsSpec.v: attrs_of_call, replace_merge) on every case, and vs an independent Python
 transcription of the property text on the cases without unsupported values.  Every call is
 also observed from the caller's side: typed deep snapshots of all argument objects (attribute
-dicts, keyword values, non-dict arguments of every container shape) before and after."""
+dicts, keyword values, non-dict arguments of every container shape) before and after.
+
+PUBLIC ENTRY POINTS THAT REACH THE BEHAVIOUR (and where this file exercises them)
+  building attributes
+    Tag(_name, *args, _add_ws=True|False, **kwargs)            via "Tag" / "ws0"
+    htmltools.div(...), htmltools.tags.span(...) (wrappers; top-level re-export and tags.*)   via "wrapper" / "tags"
+    TagAttrDict(*dicts, **kwargs)                               via "TagAttrDict", source how "TagAttrDict"
+    tag.attrs.update(*dicts, **kwargs), tag.attrs[k] = v        ops "u" / "s"
+    consolidate_attrs(*args, **kwargs)                          section 4, source how "consolidate"
+    HTMLDocument(*children, **kwargs) -> attributes of <html> (render(lib_prefix=, include_version=),
+      save_html(file, libdir=, include_version=)); a user-supplied <html> root gets them by update   section 6
+    Tag.add_class(prepend=) / add_style(prepend=) / remove_class (C16; they call attrs.update):
+      here only as producers of TagAttrDict objects handed on as arguments (source how "helpers")
+  what may be handed in as an "attribute dict" (anything isinstance(x, dict)), each one alone,
+  homogeneous and mixed, at construction, in update() and in consolidate_attrs:
+    plain dict ("d"); dict subclasses: OrderedDict, a user subclass ("o"); ANOTHER TAG'S .attrs (an
+    exact TagAttrDict, "a") obtained from Tag(...), a wrapper, TagAttrDict(...), copy.copy, copy.deepcopy,
+    tagify(), a tag that was used as a with-block, item assignment, the class/style helpers; the plain
+    dict returned by consolidate_attrs; THE SAME OBJECT twice in one call ("r"); the tag's own .attrs
+    passed to its own update ("t")
+  observing attributes
+    dict(tag.attrs) / list(tag.attrs) after every step; Tag.__eq__ against a tag built from one plain
+    dict holding the expected attributes; every markup route of trees.render_routes (get_html_string,
+    tagify().get_html_string, render()["html"], str, repr, _repr_html_, str in
+    html_dependency_render_mode = "json") and get_html_string(indent=3, eol="\r\n") against the same
+    reference tag, and the opening tag parsed back with html.parser against the specification;
+    copy.copy / copy.deepcopy / tagify() of the tag and `with tag:` as steps of a history (ops "k" / "w")
+  not here: JSXTag has its own JSXTagAttrDict (C20); class / style helper semantics (C16); attribute
+  escaping when written (C03); TagList / HTMLTextDocument have no attributes.
+STATE: after every scenario two fresh objects are built (Tag("div"), TagAttrDict(), a fixed small merge) and
+must not be influenced by what ran before; a second tag built from the very same argument objects must get
+the same attributes; sources / arguments are snapshotted before and after every call.
+SIZES: section 5 reaches 7,8,9 ... 255,256,257,300 for positional dicts, attributes of one dict, values merged
+into one attribute, dicts of one update, operations of a history, interleaved children, keywords, class
+tokens, and names / values of >= 300, >= 5000, >= 70000 characters with the interesting part at the end."""
 from __future__ import annotations
 
+import collections
+import copy as _copy
 import itertools
 import json
 import os
+import re
+import sys
+import tempfile
+from html.parser import HTMLParser
 
 from ..common import Ctx, S, unS, run_model, VERIF
 from .. import trees
 from ..trees import safe_call
 
 import htmltools
-from htmltools import HTML, Tag, TagList, consolidate_attrs
+from htmltools import HTML, HTMLDocument, Tag, TagList, consolidate_attrs
 from htmltools._core import TagAttrDict
 
 # ------------------------------------------------------------------------------------
 # case descriptions (JSON-able)
 #   value ::= ["N"] | ["B", bool] | ["I", int] | ["F", "<float literal>"] | ["S", s] | ["H", s]
 #           | ["X", kind]                      (a value of unsupported type)
+#           | ["LS", unit, n, tail] | ["LH", unit, n, tail]     (the str / HTML  unit * n + tail)
+#   key   ::= str | ["L", unit, n, tail]        (the name  unit * n + tail)
 #   dict  ::= [[key, value], ...]               (distinct raw keys)
 #   arg   ::= ["d", dict] | ["c", id]           (positional: attribute dict or child no. id)
-#   op    ::= ["u", [dict...], kwdict] | ["s", key, value]
+#           | ["o", "ordered" | "sub", dict]    (an OrderedDict / an instance of a user subclass of dict)
+#           | ["a", how, [dict...], kwdict]     (an exact TagAttrDict: the .attrs of ANOTHER tag that was
+#                                                built from these supported values in the way `how`)
+#           | ["r", j]                          (the very same object as argument no. j of the same call)
+#           | ["t"]                             (in an update only: the tag's own .attrs object)
+#   op    ::= ["u", [dict | arg ...], kwdict] | ["s", key, value]
+#           | ["w"]                             (`with tag: pass`; attributes unchanged)
+#           | ["k", "copy" | "deepcopy" | "tagify"]   (go on with that copy of the tag; attributes
+#                                                unchanged, and the original stays as it was)
+#   case  ::= {"args": [arg...], "kw": dict, "ops": [op...], "via": how the tag is built (default "Tag")}
+# The PLAIN form of a case (what the model and the specifications get) has only "d" / "c" arguments
+# with fully written out strings: every other kind of mapping is replaced by a plain dict holding the
+# items the object had when it was handed in.
 # ------------------------------------------------------------------------------------
 NAMES = ["x", "x_", "x__", "a_b", "a-b", "a_b_", "class_", "class", "_x", "-x", "", "_", "__",
          "id", "data_x", "data-x", "X", "x-", "é_", "_a__b_"]
@@ -53,10 +107,35 @@ def build_value(v):
     if k == "X":
         return {"list": [], "object": object(), "dict": {"a": 1}, "tuple": ("a",), "bytes": b"a",
                 "tag": Tag("i"), "set": frozenset()}[v[1]]
+    if k == "LS":
+        return long_text(v)
+    if k == "LH":
+        return HTML(long_text(v))
     raise ValueError(v)
 
 
+def long_text(v) -> str:
+    return v[1] * int(v[2]) + v[3]
+
+
+def key_str(k) -> str:
+    return k if isinstance(k, str) else long_text(k)
+
+
+def plain_value(v):
+    if v[0] == "LS":
+        return ["S", long_text(v)]
+    if v[0] == "LH":
+        return ["H", long_text(v)]
+    return v
+
+
+def plain_dict(d):
+    return [[key_str(k), plain_value(v)] for k, v in d]
+
+
 def value_sx(v):
+    v = plain_value(v)
     k = v[0]
     if k == "N":
         return [0]
@@ -76,17 +155,17 @@ def value_sx(v):
 
 
 def build_dict(d):
-    return {k: build_value(v) for k, v in d}
+    return {key_str(k): build_value(v) for k, v in d}
 
 
 def dict_sx(d):
-    return [[S(k), value_sx(v)] for k, v in d]
+    return [[S(key_str(k)), value_sx(v)] for k, v in d]
 
 
 def op_sx(o):
     if o[0] == "u":
         return [0, [dict_sx(d) for d in o[1]], dict_sx(o[2])]
-    return [1, S(o[1]), value_sx(o[2])]
+    return [1, S(key_str(o[1])), value_sx(o[2])]
 
 
 def args_sx(args):
@@ -136,31 +215,91 @@ def rand_dict(rng, maxn=4, bad_p=0.05, plain=False):
     return out
 
 
-def rand_case(rng, plain=False, bad_p=0.05):
+SRC_HOWS = ["Tag", "Tag", "wrapper", "TagAttrDict", "copy", "deepcopy", "tagify", "with", "setitem",
+            "consolidate", "helpers"]
+VIAS = ["Tag", "Tag", "ws0", "wrapper", "tags", "TagAttrDict"]
+POLICIES = ["all-a", "all-a", "all-o", "mix", "mix", "mix"]
+
+
+def flavour_args(rng, args, policy=None, self_ok=False):
+    """the same positional arguments with the attribute dicts handed in as other kinds of mapping
+    objects: all of them another tag's .attrs, all of them dict-subclass instances, or an independent
+    mix that also repeats an earlier object (and, in an update, the tag's own .attrs)"""
+    policy = policy or rng.choice(POLICIES)
+    out = []
+    for a in args:
+        if a[0] != "d":
+            out.append(a)
+            continue
+        bad = any(v[0] == "X" for _, v in a[1])
+        f = "a" if policy == "all-a" else "o" if policy == "all-o" else "d" if policy == "all-d" else \
+            rng.choice(["d", "a", "a", "a", "o", "r", "r", "t" if self_ok else "a"])
+        if f == "r":
+            earlier = [j for j, b in enumerate(out) if b[0] != "c"]
+            if earlier:
+                out.append(["r", rng.choice(earlier)])
+                continue
+            f = "a"
+        if f == "a" and bad:        # a TagAttrDict never holds an unsupported value
+            f = "o"
+        if f == "a":
+            items = a[1]
+            cut = rng.randrange(0, len(items) + 1) if rng.random() < 0.3 else len(items)
+            kwpart = [kv for kv in items[cut:] if isinstance(kv[0], str) and kv[0] not in ("_add_ws", "_name", "self")]
+            if len(kwpart) != len(items) - cut:
+                cut, kwpart = len(items), []
+            dicts = [items[:cut]] if cut or rng.random() < 0.7 else []
+            if rng.random() < 0.25:
+                dicts.append(rand_dict(rng, 2, 0.0))
+            out.append(["a", rng.choice(SRC_HOWS), dicts, kwpart])
+        elif f == "o":
+            out.append(["o", rng.choice(["ordered", "sub"]), a[1]])
+        elif f == "t":
+            out.append(["t"])
+        else:
+            out.append(a)
+    return out
+
+
+def rand_case(rng, plain=False, bad_p=0.05, flav_p=0.0):
     args = []
     cid = 0
+    via = rng.choice(VIAS) if flav_p and rng.random() < 0.5 else "Tag"
     for _ in range(rng.choice([0, 1, 1, 2, 2, 3, 4])):
-        if rng.random() < 0.75:
+        if rng.random() < 0.75 or via == "TagAttrDict":
             args.append(["d", rand_dict(rng, bad_p=bad_p, plain=plain)])
         else:
             args.append(["c", cid])
             cid += 1
-    kw = rand_dict(rng, bad_p=bad_p, plain=plain) if rng.random() < 0.7 else []
+    kw = rand_dict(rng, bad_p=bad_p, plain=plain) if rng.random() < (0.5 if flav_p else 0.7) else []
+    if rng.random() < flav_p:
+        args = flavour_args(rng, args)
     ops = []
     for _ in range(rng.choice([0, 0, 1, 2, 3, 5])):
-        if rng.random() < 0.55:
+        r = rng.random()
+        if flav_p and r < 0.12:
+            ops.append(["w"] if rng.random() < 0.4 else ["k", rng.choice(["copy", "deepcopy", "tagify"])])
+        elif r < 0.55:
             ds = [rand_dict(rng, 3, bad_p, plain) for _ in range(rng.choice([0, 1, 1, 2]))]
-            okw = rand_dict(rng, 3, bad_p, plain) if rng.random() < 0.6 else []
+            okw = rand_dict(rng, 3, bad_p, plain) if rng.random() < (0.4 if flav_p else 0.6) else []
+            if rng.random() < flav_p:
+                ds = flavour_args(rng, [["d", d] for d in ds], self_ok=True)
+                if rng.random() < 0.15:
+                    ds.insert(rng.randrange(0, len(ds) + 1), ["t"])
             ops.append(["u", ds, okw])
         else:
             v = rand_value(rng, bad_p)
             if plain and v[0] in ("H", "X"):
                 v = ["S", "q"]
             ops.append(["s", rand_name(rng), v])
-    return {"args": args, "kw": kw, "ops": ops}
+    c = {"args": args, "kw": kw, "ops": ops}
+    if via != "Tag":
+        c["via"] = via
+    return c
 
 
 def values_in(case):
+    """of a case in plain form"""
     for a in case["args"]:
         if a[0] == "d":
             for _, v in a[1]:
@@ -174,6 +313,13 @@ def values_in(case):
                     yield v
         else:
             yield o[2]
+
+
+def is_flavoured(case):
+    def fl(a):
+        return bool(a) and isinstance(a[0], str) and a[0] not in ("d", "c")
+    return case.get("via", "Tag") != "Tag" or any(fl(a) for a in case["args"]) or \
+        any(o[0] in ("w", "k") or (o[0] == "u" and any(fl(a) for a in o[1])) for o in case["ops"])
 
 
 def is_plain(case):
@@ -213,13 +359,154 @@ def child_obj(cid):
     return "c%d" % cid
 
 
-def impl_scenario(case, notes=None):
+def with_block(t):
+    """`with t: pass` under a hook that shows nothing.  A tag (or a copy of one) whose block has exited
+    cannot be entered again (RuntimeError; a recorded deviation, C17's subject): not an error here."""
+    old = sys.displayhook
+    sys.displayhook = lambda value: None
+    try:
+        with t:
+            pass
+    except RuntimeError:
+        pass
+    finally:
+        sys.displayhook = old
+
+
+def build_source(how, dicts, kw):
+    """another tag's attributes (an exact TagAttrDict, except 'consolidate': the plain dict returned)"""
+    ds = [build_dict(d) for d in dicts]
+    k = build_dict(kw)
+    if how == "Tag":
+        return Tag("i", *ds, **k).attrs
+    if how == "wrapper":
+        return htmltools.span(*ds, **k).attrs
+    if how == "TagAttrDict":
+        return TagAttrDict(*ds, **k)
+    if how == "copy":
+        return _copy.copy(Tag("i", *ds, **k)).attrs
+    if how == "deepcopy":
+        return _copy.deepcopy(Tag("i", *ds, **k)).attrs
+    if how == "tagify":
+        return Tag("i", *ds, **k).tagify().attrs
+    if how == "with":
+        t = Tag("i", *ds, **k)
+        with_block(t)
+        return t.attrs
+    if how == "setitem":
+        t = Tag("i")
+        for d in ds + [k]:
+            for kk, vv in d.items():
+                t.attrs[kk] = vv
+        return t.attrs
+    if how == "consolidate":
+        return consolidate_attrs(*ds, **k)[0]
+    if how == "helpers":            # what the helpers store is C16's subject: taken as found
+        t = Tag("i", *ds, **k)
+        t.add_class("k1")
+        t.add_style("color: red;")
+        t.add_class("k0", prepend=True)
+        return t.attrs
+    raise ValueError(how)
+
+
+def spec_source(how, dicts, kw):
+    """what the property text says such a source holds (None: not this property's business)"""
+    dicts, kw = [plain_dict(d) for d in dicts], plain_dict(kw)
+    if how == "helpers":
+        return None
+    if how == "setitem":
+        st = []
+        for d in dicts + [kw]:
+            for k, v in d:
+                st = py_spec_apply(st, py_spec_call([[[k, v]]], []))
+        return st
+    return py_spec_call(dicts, kw)
+
+
+def observed_dict(m):
+    return [[k, ["H", str(v)] if isinstance(v, HTML) else ["S", str(v)]] for k, v in m.items()]
+
+
+def materialise(a, objs, plains, notes, self_obj=None):
+    """(the object to hand in, the same argument in plain form).  objs / plains: the arguments of the
+    same call built so far (by position)"""
+    k = a[0]
+    if k == "d":
+        return build_dict(a[1]), ["d", plain_dict(a[1])]
+    if k == "o":
+        cls = collections.OrderedDict if a[1] == "ordered" else TagAttrDictLike
+        return cls(build_dict(a[2])), ["d", plain_dict(a[2])]
+    if k == "a":
+        r = safe_call(build_source, a[1], a[2], a[3])
+        if r[0] != "ok":
+            notes.append(("building a tag from supported values (%s) and taking its .attrs raises" % a[1],
+                          {"source": a, "raised": repr(r)}))
+            return {}, ["d", []]
+        want = spec_source(a[1], a[2], a[3])
+        if want is not None and items_of(r[1]) != want:
+            notes.append(("the attributes of a tag built from supported values (%s) differ from the "
+                          "specification [property-text oracle]" % a[1],
+                          {"source": a, "has": items_of(r[1]), "expected": want}))
+        return r[1], ["d", observed_dict(r[1])]
+    if k == "r" and 0 <= a[1] < len(objs) and isinstance(objs[a[1]], dict):
+        return objs[a[1]], plains[a[1]]
+    if k == "t" and self_obj is not None:
+        return self_obj, ["d", observed_dict(self_obj)]
+    return {}, ["d", []]
+
+
+def construct(via, args, kw):
+    if via == "Tag":
+        return Tag("div", *args, **kw)
+    if via == "ws0":
+        return Tag("div", *args, _add_ws=False, **kw)
+    if via == "wrapper":
+        return htmltools.div(*args, **kw)
+    if via == "tags":
+        return htmltools.tags.span(*args, **kw)
+    if via == "TagAttrDict":
+        return TagAttrDict(*[a for a in args if isinstance(a, dict)], **kw)
+    raise ValueError(via)
+
+
+def as_arg(a):
+    """an element of an update's dict list: older files hold the bare dict"""
+    return a if (a and isinstance(a[0], str)) else ["d", a]
+
+
+PROBE = [["x", 0, "p q"]]
+
+
+def impl_scenario(case, notes=None, more=False):
     """runs the scenario; `notes` (a list) receives (message, detail) for what the calls did to
-    the caller's own argument objects"""
-    args = [build_dict(a[1]) if a[0] == "d" else child_obj(a[1]) for a in case["args"]]
+    the caller's own argument objects, to other objects, and for what further observations (more=True:
+    equality, every markup route) show.  Returns (construction and trace, the case in plain form)."""
+    via = case.get("via", "Tag")
+    src_notes = []
+    args, plains = [], []
+    for a in case["args"]:
+        if a[0] == "c":
+            args.append(None if via == "TagAttrDict" else child_obj(a[1]))
+            plains.append(None if via == "TagAttrDict" else a)
+        else:
+            o, pa = materialise(a, args, plains, src_notes)
+            args.append(o)
+            plains.append(pa)
+    args = [o for o in args if o is not None]
     kw = build_dict(case["kw"])
-    mine = [o for o in args if isinstance(o, dict)] + [kw]      # the caller's dicts, all calls so far
-    passed = [snap(o) for o in mine]
+    plain = {"args": [pa for pa in plains if pa is not None], "kw": plain_dict(case["kw"]), "ops": []}
+    mine = []                                                   # the caller's mappings, all calls so far
+    targets = []                                                # attrs objects of the tag(s) operated on
+
+    def own(ms):
+        for m in ms:
+            if isinstance(m, dict) and not any(m is x for x in mine) and not any(m is x for x in targets):
+                mine.append(m)
+                passed.append(snap(m))
+
+    passed = []
+    own(args + [kw])
 
     def intact(after_what):
         if notes is None or notes:
@@ -229,42 +516,168 @@ def impl_scenario(case, notes=None):
             notes.append((after_what + " altered an attribute dict passed by the caller (the same "
                           "arguments must give the same attributes again)", d))
 
-    r = safe_call(lambda: Tag("div", *args, **kw))
+    r = safe_call(construct, via, args, kw)
+    if notes is not None:
+        notes.extend(src_notes)
     intact("construction")
+    t = None
     if r[0] == "ok":
-        t = r[1]
-        kids = [int(c[1:]) if isinstance(c, str) and c[:1] == "c" else -1 for c in t.children]
-        cons = ["ok", items_of(t.attrs), kids]
+        if via == "TagAttrDict":
+            A, kids = r[1], []
+        else:
+            t = r[1]
+            A = t.attrs
+            kids = [int(c[1:]) if isinstance(c, str) and c[:1] == "c" else -1 for c in t.children]
+        cons = ["ok", items_of(A), kids]
+        if notes is not None and not notes:
+            if any(A is m for m in mine):
+                notes.append(("the new tag's .attrs IS one of the caller's argument objects", None))
+            # one set of argument objects, two tags
+            r2 = safe_call(construct, via, args, kw)
+            if r2[0] != "ok" or items_of(r2[1] if via == "TagAttrDict" else r2[1].attrs) != cons[1]:
+                notes.append(("a second tag built from the very same argument objects gets other attributes",
+                              {"first": cons[1], "second": repr(r2)}))
+            intact("construction (second time)")
     else:
         cons = ["err", r[1]]
         t = Tag("div")
+        A = t.attrs
+    targets.append(A)
+    originals = []
     trace = []
+    used_with = False
     for o in case["ops"]:
         if o[0] == "u":
-            ds = [build_dict(d) for d in o[1]]
+            ds, pds = [], []
+            for a in o[1]:
+                ob, pa = materialise(as_arg(a), ds, pds, src_notes, self_obj=A)
+                ds.append(ob)
+                pds.append(pa)
             okw = build_dict(o[2])
-            mine += ds + [okw]
-            passed += [snap(d) for d in ds + [okw]]
-            rr = safe_call(lambda: t.attrs.update(*ds, **okw))
-        else:
+            own(ds + [okw])
+            plain["ops"].append(["u", [pa[1] for pa in pds], plain_dict(o[2])])
+            rr = safe_call(lambda: A.update(*ds, **okw))
+        elif o[0] == "s":
             val = build_value(o[2])
+            plain["ops"].append(["s", key_str(o[1]), plain_value(o[2])])
 
             def setit():
-                t.attrs[o[1]] = val
+                A[key_str(o[1])] = val
             rr = safe_call(setit)
-        trace.append([items_of(t.attrs), 0 if rr[0] == "ok" else rr[1]])
+        else:                           # attributes stay as they are
+            plain["ops"].append(["u", [], []])
+            rr = ("ok", None)
+            if t is not None and o[0] == "w":
+                rr = safe_call(with_block, t)
+                used_with = True
+            elif t is not None and o[0] == "k":
+                rr = safe_call({"copy": _copy.copy, "deepcopy": _copy.deepcopy, "tagify": Tag.tagify}[o[1]], t)
+                if rr[0] == "ok":
+                    originals.append((o[1], t, items_of(A)))
+                    t = rr[1]
+                    A = t.attrs
+                    if any(A is x for x in targets):
+                        if notes is not None:
+                            notes.append(("%s of a tag shares the .attrs object with the original" % o[1], None))
+                    targets.append(A)
+        trace.append([items_of(A), 0 if rr[0] == "ok" else rr[1]])
         intact("update/assignment")
+    if notes is not None:
+        for n in src_notes:
+            if n not in notes:
+                notes.append(n)
+    if notes is not None and not notes:
+        for how, orig, was in originals:
+            if items_of(orig.attrs) != was:
+                notes.append(("updating the attributes of a %s of a tag changes the attributes of the original" % how,
+                              {"original_had": was, "original_has": items_of(orig.attrs)}))
+                break
+    if notes is not None and not notes and more and t is not None and r[0] == "ok":
+        observe_more(case, via, t, notes, eq=not used_with)
+        intact("comparing / rendering the tag")
     if notes is not None and not notes:
         # the tag's attributes are those of the calls made: what the caller does to its own
         # dicts afterwards is not an update or item assignment
-        now = items_of(t.attrs)
+        now = items_of(A)
         for d in mine:
             d["zz_later"] = "1"
             d.pop(next(iter(d)))
-        if items_of(t.attrs) != now:
+        if items_of(A) != now:
             notes.append(("changing an argument dict after the call changes the tag's attributes "
-                          "(only update / item assignment may)", {"before": now, "after": items_of(t.attrs)}))
-    return [cons, trace]
+                          "(only update / item assignment may)", {"before": now, "after": items_of(A)}))
+    if notes is not None and not notes:
+        # two more objects of each class in the same process: not influenced by anything before
+        fresh = safe_call(lambda: [items_of(Tag("div").attrs), items_of(TagAttrDict()),
+                                   items_of(Tag("div", {"x_": "p"}, x="q").attrs),
+                                   items_of(consolidate_attrs()[0])])
+        if fresh != ("ok", [[], [], PROBE, []]):
+            notes.append(("after this scenario, Tag('div') / TagAttrDict() / Tag('div', {'x_': 'p'}, x='q') / "
+                          "consolidate_attrs() do not have the attributes [] / [] / x='p q' / []",
+                          {"got": repr(fresh)}))
+    return [cons, trace], plain
+
+
+NICE = re.compile(r"[a-z][a-z0-9-]*\Z")
+
+
+class _Open(HTMLParser):
+    def __init__(self):
+        super().__init__(convert_charrefs=True)
+        self.first = None
+
+    def handle_starttag(self, tag, attrs):
+        if self.first is None:
+            self.first = (tag, [[k, v] for k, v in attrs])
+
+
+def opening_tag(markup):
+    p = _Open()
+    p.feed(markup)
+    p.close()
+    return p.first
+
+
+def observe_more(case, via, t, notes, eq=True):
+    """further public observations of the final tag: equal to (==), and through every route rendered
+    like, a tag built the same way from ONE plain dict holding the attributes it now has (that those are the
+    right attributes is judged by the caller)"""
+    final = items_of(t.attrs)
+    kids = list(t.children)
+    ref = safe_call(construct, via, [{k: v for k, v in t.attrs.items()}] + kids, {})
+    if ref[0] != "ok" or items_of(ref[1].attrs) != final:
+        notes.append(("a tag built from one plain dict holding another tag's attributes does not get those "
+                      "attributes", {"attributes": final, "built": repr(ref)}))
+        return
+    ref = ref[1]
+    # NOT compared when the tag (or the tag it is a copy of) was used as a with-block: on the unchanged
+    # library such a tag keeps the hook it saved (Tag.prev_displayhook) and Tag.__eq__ compares every
+    # instance field, so it is unequal to every tag that was not -- reported; not an attribute matter
+    eq = safe_call(lambda: [t == ref, ref == t, t != ref]) if eq else ("ok", [True, True, False])
+    if eq != ("ok", [True, True, False]):
+        notes.append(("the tag does not compare equal (==) to a tag built from one plain dict holding the same "
+                      "attributes and the same children", {"attributes": final, "==": repr(eq)}))
+        return
+    routes = trees.render_routes(t) + [("get_html_string(indent=3, eol=CRLF)",
+                                        lambda: t.get_html_string(indent=3, eol="\r\n"))]
+    routes_ref = trees.render_routes(ref) + [("", lambda: ref.get_html_string(indent=3, eol="\r\n"))]
+    first = None
+    for (n, f), (_, g) in zip(routes, routes_ref):
+        x, y = safe_call(f), safe_call(g)
+        if first is None and x[0] == "ok":
+            first = x[1]
+        if x != y:
+            notes.append(("%s of the tag differs from that of a tag built from one plain dict holding the same "
+                          "attributes and the same children" % n, {"attributes": final, "got": repr(x)[:2000],
+                                                                     "reference": repr(y)[:2000]}))
+            return
+    if items_of(t.attrs) != final:
+        notes.append(("comparing / rendering the tag changed its attributes",
+                      {"before": final, "after": items_of(t.attrs)}))
+    elif first is not None and all(m == 0 and NICE.match(n) for n, m, _ in final):
+        got = safe_call(opening_tag, first)
+        if got[0] != "ok" or got[1] is None or got[1][1] != [[n, v] for n, _, v in final]:
+            notes.append(("the markup of the tag, read back with html.parser, does not carry the tag's "
+                          "attributes in order", {"attributes": final, "markup": first[:2000], "parsed": repr(got)[:2000]}))
 
 
 def dec_attrs(a):
@@ -450,34 +863,41 @@ def build_child(sh):
     raise ValueError(sh)
 
 
-def cons_dicts(case):
-    """the attribute dicts of the call in argument order (dict-subclass instances included)"""
-    shapes = child_shapes(case)
+def cons_dicts(pargs, shapes):
+    """the attribute dicts of the call (plain form) in argument order (dict-subclass instances included)"""
     out = []
-    for a in case["args"]:
+    for a in pargs:
         if a[0] == "d":
             out.append(a[1])
         elif shapes[a[1]][0] == "D":
-            out.append(shapes[a[1]][1])
+            out.append(plain_dict(shapes[a[1]][1]))
     return out
 
 
-def cons_plain(case):
-    return all(v[0] != "X" for d in cons_dicts(case) + [case["kw"]] for _, v in d)
-
-
 def impl_consolidate(case):
-    """returns (canonical for correspondence, [oracle message...], detail)"""
+    """returns (canonical for correspondence, [oracle message...], detail, the arguments in plain form)"""
     shapes = child_shapes(case)
+    src_notes = []
 
-    def build_args():
-        return [build_dict(a[1]) if a[0] == "d" else build_child(shapes[a[1]]) for a in case["args"]]
+    def build_args(notes):
+        objs, plains = [], []
+        for a in case["args"]:
+            if a[0] == "c":
+                o, pa = build_child(shapes[a[1]]), a
+            else:
+                o, pa = materialise(a, objs, plains, notes)
+            objs.append(o)
+            plains.append(pa)
+        return objs, plains
 
-    objs = build_args()
+    objs, pargs = build_args(src_notes)
     kw = build_dict(case["kw"])
+    pkw = plain_dict(case["kw"])
+    dicts = cons_dicts(pargs, shapes)
+    is_pl = all(v[0] != "X" for d in dicts + [pkw] for _, v in d)
     non_dicts = [o for o in objs if not isinstance(o, dict)]
     passed = [snap(o) for o in objs] + [snap(kw)]
-    msgs = []
+    msgs = list(src_notes)
 
     def args_intact(after_what):
         d = first_diff(passed, [snap(o) for o in objs] + [snap(kw)])
@@ -493,23 +913,25 @@ def impl_consolidate(case):
     intact = args_intact("consolidate_attrs")
     direct = safe_call(lambda: Tag("div", *objs, **kw))
     intact = intact and args_intact("Tag(...)")
-    detail = {"impl_output": repr(r), "expected": repr(direct)}
+    detail = {"impl_output": repr(r)[:3000], "expected": repr(direct)[:3000]}
     # the statement, transcribed: exactly the attributes of the call, plus the non-dict arguments
-    want = py_spec_call(cons_dicts(case), case["kw"]) if cons_plain(case) else None
+    want = py_spec_call(dicts, pkw) if is_pl else None
     if r[0] != "ok":
         canon = ["err", r[1]]
         if direct[0] == "ok" or direct[1] != r[1]:
             msgs.append(("consolidate_attrs raises but direct construction does not (or differently)", None))
         if want is not None:
             msgs.append(("consolidate_attrs raises on supported values [property-text oracle]", None))
-        return canon, [m for m, _ in msgs], _detail(detail, msgs, want)
+        return canon, [m for m, _ in msgs], _detail(detail, msgs, want), (pargs, pkw)
     out = r[1]
     if not (isinstance(out, tuple) and len(out) == 2 and type(out[0]) is dict and type(out[1]) is list):
-        return ["shape"], ["consolidate_attrs does not return (dict, list)"], {"impl_output": repr(out)}
+        return ["shape"], ["consolidate_attrs does not return (dict, list)"], {"impl_output": repr(out)[:2000]}, (pargs, pkw)
     attrs, children = out
     got_items = items_of(attrs)
     # k-th returned child must BE the k-th non-dict argument; the model names it by its id
     nd_ids = [a[1] for a in case["args"] if a[0] == "c" and shapes[a[1]][0] != "D"]
+    if any(attrs is o for o in objs):
+        msgs.append(("consolidate_attrs returns one of the caller's argument objects as the attribute dict", None))
     kids = [nd_ids[k] if k < len(non_dicts) and k < len(nd_ids) and c is non_dicts[k] else -1
             for k, c in enumerate(children)]
     canon = ["ok", got_items, kids]
@@ -518,7 +940,7 @@ def impl_consolidate(case):
                      "(normalised, merged in argument order) [property-text oracle]", None))
     if direct[0] != "ok":
         msgs.append(("consolidate_attrs succeeds but direct construction raises", None))
-        return canon, [m for m, _ in msgs], _detail(detail, msgs, want)
+        return canon, [m for m, _ in msgs], _detail(detail, msgs, want), (pargs, pkw)
     d = direct[1]
     if got_items != items_of(d.attrs):
         msgs.append(("consolidate_attrs attributes differ from those of the directly built tag", None))
@@ -526,7 +948,7 @@ def impl_consolidate(case):
         msgs.append(("consolidate_attrs does not return the non-dict arguments unchanged", None))
     else:
         # a tag built directly from separately built, never used, equal arguments
-        fresh = safe_call(lambda: Tag("div", *build_args(), **build_dict(case["kw"])))
+        fresh = safe_call(lambda: Tag("div", *build_args([])[0], **build_dict(case["kw"])))
         rebuilt = safe_call(lambda: Tag("div", attrs, *children))
         if rebuilt[0] != "ok":
             msgs.append(("rebuilding a tag from consolidate_attrs' result raises", None))
@@ -538,7 +960,7 @@ def impl_consolidate(case):
                 msgs.append(("tag rebuilt from consolidate_attrs' result differs from the directly built tag", None))
             elif fresh[0] != "ok" or not (rb == fresh[1]) or snap(rb) != snap(fresh[1]):
                 msgs.append(("tag rebuilt from consolidate_attrs' result differs from a tag built directly "
-                             "from equal, unused arguments", {"rebuilt": snap(rb), "direct": repr(fresh)}))
+                             "from equal, unused arguments", {"rebuilt": short(snap(rb)), "direct": repr(fresh)[:2000]}))
         if intact:
             args_intact("rebuilding from the result")
         # what was returned belongs to the caller: changing it must not show in a second call
@@ -550,8 +972,8 @@ def impl_consolidate(case):
         if r2[0] != "ok" or items_of(r2[1][0]) != got_items or len(r2[1][1]) != len(non_dicts) \
                 or any(a is not b for a, b in zip(r2[1][1], non_dicts)):
             msgs.append(("a second consolidate_attrs call with the same arguments (after the caller changed "
-                         "the first result) returns something else", {"second": repr(r2)}))
-    return canon, [m for m, _ in msgs], _detail(detail, msgs, want)
+                         "the first result) returns something else", {"second": repr(r2)[:2000]}))
+    return canon, [m for m, _ in msgs], _detail(detail, msgs, want), (pargs, pkw)
 
 
 def _detail(detail, msgs, want):
@@ -599,7 +1021,7 @@ def rand_child(rng, depth=0):
     return [kind, [rand_child(rng, depth + 1) for _ in range(n)]]
 
 
-def rand_cons_case(rng, bad_p=0.04, dictsub_p=0.0):
+def rand_cons_case(rng, bad_p=0.04, dictsub_p=0.0, flav_p=0.0):
     args, children = [], []
 
     def child():
@@ -621,7 +1043,9 @@ def rand_cons_case(rng, bad_p=0.04, dictsub_p=0.0):
                 args.append(["d", rand_dict(rng, bad_p=bad_p)])
             else:
                 child()
-    kw = rand_dict(rng, bad_p=bad_p) if rng.random() < 0.7 else []
+    kw = rand_dict(rng, bad_p=bad_p) if rng.random() < (0.4 if flav_p else 0.7) else []
+    if rng.random() < flav_p:
+        args = flavour_args(rng, args)
     return {"args": args, "kw": kw, "children": children}
 
 
@@ -652,25 +1076,29 @@ def small_cons_cases():
 
 def check_consolidate(ctx: Ctx, name: str, cases: list, kind: str) -> None:
     """oracle on every case; correspondence with the model on those inside its domain
-    (no dict-subclass arguments)"""
-    inside = [c for c in cases if all(sh[0] != "D" for sh in child_shapes(c))]
-    mo = run_model([[3, args_sx(c["args"]), dict_sx(c["kw"])] for c in inside], driver="c15") if inside else []
-    model_of = {id(c): m for c, m in zip(inside, mo)}
+    (no dict-subclass instances among the non-dict shapes).  Implementation first: that yields the plain
+    form of the arguments (see impl_scenario)"""
+    runs = [(c, impl_consolidate(c)) for c in cases]
+    inside = [(c, r) for c, r in runs if all(sh[0] != "D" for sh in child_shapes(c))]
+    mo = run_model([[3, args_sx(r[3][0]), dict_sx(r[3][1])] for _, r in inside], driver="c15") if inside else []
+    model_of = {id(c): m for (c, _), m in zip(inside, mo)}
     dis = []
-    for c in cases:
+    for c, (canon, msgs, detail, _) in runs:
         ctx.count(("consolidate", c), True, kind if id(c) in model_of else kind + " (dict subclass args)")
-        canon, msgs, detail = impl_consolidate(c)
         for msg in msgs:
             ctx.violation("consolidate_attrs: " + msg, c, detail)
         m = model_of.get(id(c))
         if m is None:
             continue
+        if isinstance(m, tuple) or m == [999999, 999999]:
+            dis.append({"case": c, "impl_output": short(canon), "model_output": repr(m)[:2000]})
+            continue
         mv = dec_tagres(m[0])
         # the model's rebuilt tag and direct tag must agree with its consolidate (theorem;
         # checked here on the extracted code as a sanity check of the extraction)
         if mv != canon or dec_tagres(m[1]) != mv or dec_tagres(m[2]) != mv:
-            dis.append({"case": c, "impl_output": canon,
-                        "model_output": [mv, dec_tagres(m[1]), dec_tagres(m[2])]})
+            dis.append({"case": c, "impl_output": short(canon),
+                        "model_output": short([mv, dec_tagres(m[1]), dec_tagres(m[2])])})
     if inside:
         ctx.corr_cases += len(inside)
         ctx.obligation(f"correspondence {name} ({len(inside)} cases)", not dis)
@@ -680,32 +1108,41 @@ def check_consolidate(ctx: Ctx, name: str, cases: list, kind: str) -> None:
 
 
 # ------------------------------------------------------------------------------------------------
-def check_scenarios(ctx: Ctx, name: str, cases: list) -> None:
-    model_out = run_model([[1, args_sx(c["args"]), dict_sx(c["kw"]), [op_sx(o) for o in c["ops"]]]
-                           for c in cases], driver="c15")
-    disagreements = []
-    for c, m in zip(cases, model_out):
-        ctx.count(c, nontrivial(c), case_kind(c))
+def check_scenarios(ctx: Ctx, name: str, cases: list, more_every: int = 16) -> None:
+    """implementation first (that also yields each case's plain form: mapping objects other than plain
+    dicts are replaced by what they held when handed in), then model and specifications on the plain form"""
+    runs = []
+    for i, c in enumerate(cases):
         notes = []
-        iv = impl_scenario(c, notes)
+        fl = is_flavoured(c)
+        # equality and every markup route: all sized cases, every fourth of those with other mapping objects /
+        # entry points, every more_every-th of the rest
+        iv, pc = impl_scenario(c, notes, more=c.get("more", False) or i % (min(4, more_every) if fl else more_every) == 0)
+        runs.append((c, pc, iv, notes, fl))
+    model_out = run_model([[1, args_sx(pc["args"]), dict_sx(pc["kw"]), [op_sx(o) for o in pc["ops"]]]
+                           for _, pc, _, _, _ in runs], driver="c15")
+    disagreements = []
+    for (c, pc, iv, notes, fl), m in zip(runs, model_out):
+        ctx.count(c, nontrivial(pc), case_kind(pc) + (", mapping objects other than plain dicts / other "
+                                                      "entry points" if fl else ""))
         for what, d in notes:
-            ctx.violation(what, c, {"impl_output": iv, "observed": d})
+            ctx.violation(what, c, {"impl_output": short(iv), "observed": d})
         if isinstance(m, tuple) or m == [999999, 999999]:
-            disagreements.append({"case": c, "impl_output": iv, "model_output": repr(m)})
+            disagreements.append({"case": c, "impl_output": short(iv), "model_output": repr(m)[:2000]})
             continue
         mv = [dec_tagres(m[0]), dec_trace(m[1])]
         sv = [dec_tagres(m[2]), dec_trace(m[3])]
         if mv != iv:
-            disagreements.append({"case": c, "impl_output": iv, "model_output": mv})
+            disagreements.append({"case": c, "impl_output": short(iv), "model_output": short(mv)})
         # step C: Coq specification (all value kinds)
         if sv != iv:
-            ctx.violation(spec_diff_message(c, iv, sv), c, {"impl_output": iv, "expected": sv})
+            ctx.violation(spec_diff_message(c, iv, sv), c, {"impl_output": short(iv), "expected": short(sv)})
         # step C: Python transcription of the property text (str / HTML / numbers / bool / None)
-        if is_plain(c):
-            pv = py_spec_scenario(c)
+        if is_plain(pc):
+            pv = py_spec_scenario(pc)
             if pv != iv:
                 ctx.violation(spec_diff_message(c, iv, pv) + " [property-text oracle]", c,
-                              {"impl_output": iv, "expected": pv})
+                              {"impl_output": short(iv), "expected": short(pv)})
     ctx.corr_cases += len(cases)
     ctx.obligation(f"correspondence {name} ({len(cases)} cases, compared after every step)",
                    not disagreements)
@@ -713,6 +1150,198 @@ def check_scenarios(ctx: Ctx, name: str, cases: list) -> None:
         disagreements.sort(key=lambda d: len(json.dumps(d["case"])))
         ctx.extra.setdefault("disagreements", []).extend(disagreements[:3])
         ctx.extra[f"disagree_{name}"] = disagreements[:3]
+
+
+def short(x, n=400):
+    """long strings inside a reported value cut to head ... tail (the case itself is kept compact by
+    its own notation)"""
+    if isinstance(x, str):
+        return x if len(x) <= n else x[:n // 2] + "...[%d characters]..." % len(x) + x[-n // 2:]
+    if isinstance(x, (list, tuple)):
+        if len(x) > 40:
+            return [short(y, n) for y in x[:20]] + ["...[%d items]..." % len(x)] + [short(y, n) for y in x[-20:]]
+        return [short(y, n) for y in x]
+    if isinstance(x, dict):
+        return {k: short(v, n) for k, v in x.items()}
+    return x
+
+
+# ---- sizes ------------------------------------------------------------------------------------
+THRESHOLDS = [7, 8, 9, 15, 16, 17, 31, 32, 33, 63, 64, 65, 127, 128, 129, 255, 256, 257, 300]
+SPELL = ["x", "x_", "x", "x_"]          # one normalised name; within one dict each raw key once
+TAILS = [["H", "<l&\">"], ["S", "l\"<&'"], ["N"], ["B", False], ["B", True], ["I", 0], ["F", "0.0"], ["S", ""]]
+
+
+def sized_case(rng, what, n):
+    """a scenario in which `what` is counted up to n, with the part that matters (an HTML value that turns
+    the merged value into HTML, a dropped value, a colliding spelling, a replaced name) in the LAST item"""
+    tail = rng.choice(TAILS)
+    c = {"args": [], "kw": [], "ops": [], "more": True}
+    if what in ("dicts", "merged"):
+        # n positional dicts, every one with a value for x (and sometimes more); "merged": all of one
+        # flavour and no keywords, so that n values are merged into one attribute by one call
+        for i in range(n):
+            d = [[SPELL[i % 4], ["S", "v%d" % i]]]
+            if i % 5 == 2:
+                d.append(["a_b" if i % 2 else "a-b", ["I", i]])
+            c["args"].append(["d", d])
+        c["args"][-1] = ["d", [["x_", tail], ["last_", ["I", 0]]]]
+        if what == "dicts":
+            if rng.random() < 0.5:
+                c["kw"] = [["x", ["S", "kw"]], ["x_", ["H", "&amp;"]]]
+            if rng.random() < 0.6:
+                c["args"] = flavour_args(rng, c["args"], policy="mix")
+            c["via"] = rng.choice(VIAS)
+        else:
+            c["args"] = flavour_args(rng, c["args"], policy=rng.choice(["all-a", "all-o", "all-d"]))
+        c["ops"] = [["s", "x", ["S", "z"]]] if rng.random() < 0.3 else []
+    elif what == "attrs":
+        # one dict with n names; a second argument collides with the last and the last but one
+        d = [["k%d_" % i if i % 3 else "k_%d" % i, ["S", "v%d" % i]] for i in range(n)]
+        last, prev = d[-1][0], d[-2][0]
+        c["args"] = [["d", d], ["d", [[py_spec_name(last), tail], [prev + "_" if not prev.endswith("_") else prev[:-1], ["I", 1]]]]]
+        if rng.random() < 0.5:
+            c["args"] = flavour_args(rng, c["args"])
+        c["ops"] = [["u", [[[py_spec_name(last), ["S", "new"]]]], [["k1", ["N"]]]], ["s", d[n // 2][0], ["B", True]]]
+    elif what == "update":
+        # one update with n dicts for a tag that already has x
+        c["args"] = [["d", [["x", ["S", "old"]], ["y", ["S", "keep"]]]]]
+        ds = [["d", [[SPELL[i % 4], ["S", "u%d" % i]]]] for i in range(n)]
+        ds[-1] = ["d", [["x_", tail], ["y_", tail]]]
+        if rng.random() < 0.6:
+            ds = flavour_args(rng, ds, self_ok=True)
+        c["ops"] = [["u", ds, [] if rng.random() < 0.5 else [["x", ["S", "kw"]]]],
+                    ["u", [ds[-1]], []]]
+    elif what == "ops":
+        # a history of n operations on a handful of names
+        c["args"] = [["d", [["x", ["S", "0"]]]]]
+        for i in range(n):
+            r = rng.random()
+            if r < 0.5:
+                c["ops"].append(["s", rng.choice(["x", "x_", "x__", "y_", "a_b"]), rand_value(rng, 0.03)])
+            elif r < 0.9:
+                c["ops"].append(["u", [rand_dict(rng, 2, 0.03) for _ in range(rng.choice([1, 1, 2]))],
+                                 rand_dict(rng, 2, 0.03) if rng.random() < 0.4 else []])
+            else:
+                c["ops"].append(rng.choice([["w"], ["k", "copy"], ["k", "deepcopy"], ["k", "tagify"], ["u", [["t"]], []]]))
+        c["ops"].append(["u", [[["x", ["S", "a"]]], [["x_", tail]]], []])
+    elif what == "children":
+        # n arguments: children and dicts interleaved
+        for i in range(n):
+            c["args"].append(["c", i // 2] if i % 2 == 0 else ["d", [[SPELL[(i // 2) % 4], ["S", "v%d" % i]]]])
+        c["args"].append(["d", [["x", tail]]])
+        c["args"].append(["c", n // 2 + 1])
+        if rng.random() < 0.5:
+            c["args"] = flavour_args(rng, c["args"])
+    elif what == "kw":
+        c["args"] = [["d", [["k%d" % (n - 1), ["S", "first"]]]]]
+        c["kw"] = [["k%d_" % i, ["S", "v%d" % i]] for i in range(n - 1)] + [["k%d_" % (n - 1), tail]]
+    elif what == "tokens":
+        # class tokens: values that are themselves n space separated words are merged as they are
+        words = " ".join("t%d" % i for i in range(n))
+        c["args"] = [["d", [["class_", ["S", words]]]], ["d", [["class", ["S", "  two  spaces "]]]]]
+        c["kw"] = [["class_", tail]]
+        if rng.random() < 0.5:
+            c["args"] = flavour_args(rng, c["args"], policy="all-a")
+    else:
+        raise ValueError(what)
+    return c
+
+
+def long_cases(rng, n):
+    """names and values of about n characters, what matters at the very end"""
+    j = rng.randrange(0, 7)
+    lv = ["LS", "ab c", (n + j) // 4, "<\"&z"]
+    lh = ["LH", "&amp;b ", (n + j) // 7, "<i>\""]
+    ln = ["L", "n_", (n + j) // 2, "_"]               # every underscore a hyphen, the last one removed
+    ln2 = ["L", "n-", (n + j) // 2, ""]               # the same normalised name
+    out = [
+        {"args": [["d", [["x", lv]]], ["d", [["x_", ["H", "<b>"]]]]], "kw": [["x", lv]], "ops": [["s", "x", lv]]},
+        {"args": [["d", [["x", ["S", "p\""]], ["y", lh]]], ["a", "Tag", [[["x", lh]]], [["y", lv]]]], "kw": [],
+         "ops": [["u", [[["y_", lv]]], [["y", ["S", "<"]]]]]},
+        {"args": [["d", [[ln, ["S", "1"]]]], ["d", [[ln2, ["S", "2"]], ["x", ["B", True]]]]], "kw": [],
+         "ops": [["s", ln, ["S", "3"]], ["u", [[[ln2, lv]]], []]]},
+        {"args": [["a", "copy", [[["x", lv]]], []], ["a", "setitem", [[["x_", ["S", "s"]]]], []], ["r", 0]], "kw": [],
+         "ops": [["u", [["t"]], []], ["u", [["t"], [["x_", ["S", "\"end"]]]], []]]},
+    ]
+    if n > 20000:       # every long string once: the model's answer repeats the state after every step
+        out = [{"args": [["d", [["x", lv]]], ["d", [["x_", ["H", "<b>"]]]]], "kw": [], "ops": []},
+               {"args": [["d", [[ln, ["S", "1"]]]], ["d", [[ln2, ["S", "2\""]], ["x", ["B", True]]]]], "kw": [], "ops": []},
+               {"args": [["a", "Tag", [[["x", lh]]], []], ["a", "copy", [], [["x_", ["S", "p\""]]]]], "kw": [], "ops": []}]
+    for c in out:
+        c["more"] = True
+    return out
+
+
+def cons_of(c, n_children):
+    """the arguments of a scenario as a consolidate_attrs case: its own child arguments where they are, or
+    (if it has none) n_children non-dict arguments after the dicts"""
+    ids = [a[1] for a in c["args"] if a[0] == "c"]
+    args = list(c["args"])
+    if not ids:
+        ids = list(range(n_children))
+        args += [["c", i] for i in ids]
+    return {"args": args, "kw": c["kw"], "children": [["s", "c%d" % i] if i % 7 else ["l", [["i", i], ["n"]]]
+                                                     for i in range(max(ids) + 1 if ids else 0)]}
+
+
+# ---- HTMLDocument(**kwargs): attributes of <html> -------------------------------------------------
+#   case ::= {"doc": "plain" | "html", "kw": dict, "own": [dict...] (attributes of the user's <html> tag),
+#             "route": "render" | "render_args" | "save_html"}
+def rand_doc_case(rng):
+    kw = [kv for kv in rand_dict(rng, 5, 0.0)]
+    if rng.random() < 0.5:
+        kw = [["lang", ["S", rng.choice(["en", "de-CH", "a\"b"])]], ["class_", rand_value(rng, 0.0)],
+              ["style", rand_value(rng, 0.0)]] + [kv for kv in kw if kv[0] not in ("lang", "class_", "style")]
+    c = {"doc": rng.choice(["plain", "plain", "html"]), "kw": kw, "own": [],
+         "route": rng.choice(["render", "render", "render_args", "save_html"])}
+    if c["doc"] == "html":
+        c["own"] = [rand_dict(rng, 3, 0.0) for _ in range(rng.choice([0, 1, 2]))]
+    return c
+
+
+def check_doc(ctx: Ctx, c) -> None:
+    ctx.count(("doc", c), True, "HTMLDocument(**kwargs)")
+    kw = build_dict(c["kw"])
+    if c["doc"] == "html":
+        root = safe_call(lambda: htmltools.tags.html(*[build_dict(d) for d in c["own"]], htmltools.tags.body("b")))
+        if root[0] != "ok":
+            return
+        root = root[1]
+        content = [root]
+        want = py_spec_apply(py_spec_call([plain_dict(d) for d in c["own"]], []), py_spec_call([], plain_dict(c["kw"])))
+        clause = ("the <html> tag written by HTMLDocument(<html>..., **kwargs) does not have the user's tag's "
+                  "attributes updated with the keyword attributes (update replaces) [property-text oracle]")
+    else:
+        root = None
+        content = [htmltools.div("b")]
+        want = py_spec_call([], plain_dict(c["kw"]))
+        clause = ("the <html> tag written by HTMLDocument(..., **kwargs) does not have exactly the keyword "
+                  "attributes, normalised and merged [property-text oracle]")
+    before = [snap(kw), snap(root)]
+
+    def go():
+        doc = HTMLDocument(*content, **kw)
+        if c["route"] == "render":
+            return doc.render()["html"]
+        if c["route"] == "render_args":
+            return doc.render(lib_prefix=None, include_version=False)["html"]
+        with tempfile.TemporaryDirectory() as td:
+            f = os.path.join(td, "index.html")
+            doc.save_html(f, libdir=None, include_version=False)
+            with open(f, encoding="utf-8", newline="") as fh:
+                return fh.read()
+    got = safe_call(go)
+    # how a tag with exactly these attributes starts, as the library writes it
+    ref = safe_call(lambda: Tag("html", {n: (HTML(v) if m else v) for n, m, v in want}).get_html_string())
+    if ref[0] != "ok" or not ref[1].endswith("></html>"):
+        return
+    opening = ref[1][:-len("</html>")]
+    if got[0] != "ok" or opening not in got[1][:len(opening) + 64]:
+        ctx.violation(clause, c, {"impl_output": repr(got)[:1500], "expected": opening, "expected_attrs": want})
+    elif [snap(kw), snap(root)] != before:
+        ctx.violation("HTMLDocument(..., **kwargs) rendering altered the caller's keyword values or <html> tag", c,
+                      {"impl_output": short([snap(kw), snap(root)]), "expected": short(before)})
 
 
 def spec_diff_message(c, iv, sv) -> str:
@@ -753,7 +1382,25 @@ def run(ctx: Ctx) -> None:
                 "and from separately built equal arguments, and by a second call after the caller changed the "
                 "first result. Every call (Tag, update, consolidate_attrs) is also observed through the "
                 "caller's own argument objects: a typed deep snapshot taken before must equal one taken after, "
-                "and changing an argument dict after the call must not change the tag. A scenario is non-trivial when two values share a normalised name "
+                "and changing an argument dict after the call must not change the tag. "
+                "Every attribute dict may also be handed in as another kind of mapping object: the .attrs of another "
+                "tag (an exact TagAttrDict, obtained from Tag / a wrapper / TagAttrDict() / copy / deepcopy / tagify / "
+                "a tag used as a with-block / item assignment / the class and style helpers), the dict returned by "
+                "consolidate_attrs, an OrderedDict or user dict subclass, the same object twice in one call, or (in "
+                "update) the tag's own .attrs -- all of one kind with and without keywords, or mixed; the model and "
+                "the specifications get the plain dict of what the object held when handed in. Tags are built through "
+                "Tag, Tag(_add_ws=False), htmltools.div, tags.span and TagAttrDict(); histories also contain with-blocks "
+                "and copy / deepcopy / tagify steps (continue on the copy, original unchanged). After every scenario "
+                "fresh objects (Tag('div'), TagAttrDict(), a fixed merge, consolidate_attrs()) must be uninfluenced and a "
+                "second tag from the same argument objects must get the same attributes; on a subset the final tag must "
+                "== and render (all routes of trees.render_routes, get_html_string(indent=3, eol=CRLF)) like a tag built "
+                "from one plain dict with the same attributes, and its opening tag read back by html.parser carries them. "
+                "Sizes: 7,8,9,...,255,256,257,300 positional dicts / attributes of one dict / values merged into one "
+                "attribute / dicts of one update / operations / interleaved children / keywords / class tokens, with the "
+                "decisive item last; names and values of 300, 5000 and 70000 characters with the decisive part at the end. "
+                "HTMLDocument(**kwargs) (render with default and non-default arguments, save_html): the <html> tag has "
+                "the keyword attributes (a user's <html> root: updated with them). "
+                "A scenario is non-trivial when two values share a normalised name "
                 "or an operation follows; distinct = distinct canonical case descriptions.")
     ctx.assumptions = [
         "the extracted OCaml model behaves as the Gallina model (ExtrOcamlBasic only)",
@@ -802,6 +1449,12 @@ def run(ctx: Ctx) -> None:
     cases += [rand_case(rng, plain=True) for _ in range(ctx.budget(6000, 60000))]
     cases += [rand_case(rng, bad_p=0.3) for _ in range(ctx.budget(1500, 15000))]   # malformed stream
     check_scenarios(ctx, "Tag(...) then update/setitem sequences", cases)
+    # the same, with the attribute dicts handed in as other mapping objects (other tags' .attrs, dict
+    # subclasses, one object twice, the tag's own .attrs), through the other entry points, and with
+    # copies / with-blocks as steps of the history
+    cases = [rand_case(rng, flav_p=0.85) for _ in range(ctx.budget(3200, 30000))]
+    cases += [rand_case(rng, bad_p=0.25, flav_p=0.85) for _ in range(ctx.budget(300, 3000))]
+    check_scenarios(ctx, "other mapping objects as attribute dicts, other entry points", cases)
 
     # ---- 3. bounded-exhaustive small scope -----------------------------------------------------
     xn = ["x", "x_", "x__", "a_b", "a-b", "_"]
@@ -830,6 +1483,13 @@ def run(ctx: Ctx) -> None:
                 args, kw = [["d", [p]]], [q]
             for f in fl:
                 small.append({"args": args, "kw": kw, "ops": f})
+    # both pairs as the .attrs of two other tags and nothing else; the first one twice
+    for p, q in itertools.product([x for x in pairs if x[1][0] != "X"], repeat=2):
+        how = SRC_HOWS[(len(small) // 7) % len(SRC_HOWS)]
+        if len(small) % 2:
+            small.append({"args": [["a", how, [[p]], []], ["a", "Tag", [], [q]]], "kw": [], "ops": fl[len(small) % len(fl)]})
+        else:
+            small.append({"args": [["a", how, [[p]], []], ["c", 0], ["o", "ordered", [q]], ["r", 0]], "kw": [], "ops": []})
     if ctx.quick:
         small = [c for i, c in enumerate(small) if i % 3 == ctx.seed % 3]
         for f in follow[1:]:
@@ -850,6 +1510,32 @@ def run(ctx: Ctx) -> None:
     check_consolidate(ctx, "consolidate_attrs (some dict-subclass args)",
                       [rand_cons_case(rng, dictsub_p=0.3) for _ in range(ctx.budget(400, 6000))],
                       "consolidate_attrs")
+    check_consolidate(ctx, "consolidate_attrs (other mapping objects as attribute dicts)",
+                      [rand_cons_case(rng, flav_p=0.9) for _ in range(ctx.budget(800, 10000))],
+                      "consolidate_attrs (other mapping objects)")
+
+    # ---- 5. sizes: counts just below / at / above 8 ... 256 and 300; long names and values ------------
+    kinds = ["dicts", "merged", "attrs", "update", "ops", "children", "kw", "tokens"]
+    sized = []
+    for rep_ in range(ctx.budget(1, 4)):
+        for i, n in enumerate(THRESHOLDS):
+            for j, what in enumerate(kinds):
+                # quick: every count for "merged" and "dicts", for the others every third count (rotating
+                # with the seed), 300 always
+                if ctx.quick and j >= 2 and n != 300 and (i + j + ctx.seed) % 3:
+                    continue
+                sized.append(sized_case(rng, what, n))
+    for n in (300, 5000, 70000):
+        sized += long_cases(rng, n)
+    check_scenarios(ctx, "sizes (counts around 8 ... 256, 300; strings of 300, 5000, 70000 characters)", sized)
+    big_cons = [cons_of(sized_case(rng, what, n), n) for what in ("dicts", "merged", "children", "kw")
+                for n in (THRESHOLDS if not ctx.quick else THRESHOLDS[ctx.seed % 3::3] + [300])]
+    big_cons += [cons_of(c, 3) for c in long_cases(rng, 5000)[:2] + long_cases(rng, 70000)[::2]]
+    check_consolidate(ctx, "consolidate_attrs, sizes", big_cons, "consolidate_attrs (sizes)")
+
+    # ---- 6. HTMLDocument(**kwargs) ----------------------------------------------------------------------
+    for _ in range(ctx.budget(400, 4000)):
+        check_doc(ctx, rand_doc_case(rng))
     for badchild in (object(), b"x", {1, 2}):
         r = safe_call(lambda: consolidate_attrs({"a": 1}, badchild, b=2))
         d = safe_call(lambda: Tag("div", {"a": 1}, badchild, b=2))
@@ -874,7 +1560,9 @@ def replay(ctx: Ctx, path: str) -> None:
     ctx.rule = "replay of one recorded case"
     ctx.proof()
     if isinstance(c, dict) and "ops" in c:
-        check_scenarios(ctx, "replayed scenario", [c])
+        check_scenarios(ctx, "replayed scenario", [c], more_every=1)
+    elif isinstance(c, dict) and "doc" in c:
+        check_doc(ctx, c)
     elif isinstance(c, dict) and ("ckinds" in c or "children" in c):
         check_consolidate(ctx, "replayed consolidate_attrs case", [c], "consolidate_attrs")
     elif isinstance(c, str):
